@@ -1,6 +1,218 @@
 import TantivyModel.Driver.Proto
+import TantivyModel.Model.QuerySem
+import TantivyModel.Model.BoolCompile
+import TantivyModel.Model.PhraseSlop
+import TantivyModel.Model.OrderEnc
+/-
+Line protocol of the C03 model.
+
+  C03 answer <corpus> <query>…            spec: ids of live docs with `sem` (`;` between queries)
+  C03 search <0|1> <top 0|1> <corpus> <query>…  implementation model: `searchIds`/`searchIdsTop leafTree scoring`
+  C03 count <corpus> <query>…             implementation model: Σ `weightCount`
+  C03 ok <query>…                         side conditions `okQ` of C03_compile_sound_partial (F4, S6)
+  C03 slop <on|off> <slop> <l1/l2/…>      the two phrase-slop algorithms on adjusted position lists
+  C03 i64 <u64 bits> / C03 f64 <u64 bits> order-preserving encodings (on bit patterns)
+  C03 lev <transp> <pre> <hex cand> <hex query>   edit distance
+
+corpus  := seg ('/' seg)* | '-'          seg := doc (';' doc)*
+doc     := id '|' alive '|' postings '|' fast
+postings:= '-' | f ':' hex ':' positions (',' …)*     positions := '-' | p ('.' p)*
+fast    := '-' | f ':' v (',' …)*
+query   := atoms joined by ':' in prefix form (see `parseQ`)
+-/
 namespace TantivyModel.Driver.C03
-/-- stub: the model for C03 is not built yet -/
+open TantivyModel TantivyModel.Proto TantivyModel.QuerySem TantivyModel.BoolCompile
+
+def bytesNat (s : String) : Option (List Nat) := (bytesOfHex s).map (·.map UInt8.toNat)
+
+def dotList (s : String) : Option (List Nat) :=
+  if s == "-" then some [] else (s.splitOn ".").mapM (fun t => t.toNat?)
+
+def parsePosting (s : String) : Option Posting :=
+  match s.splitOn ":" with
+  | [f, h, ps] =>
+    match f.toNat?, bytesNat h, dotList ps with
+    | some f, some t, some ps => some ⟨f, t, ps⟩
+    | _, _, _ => none
+  | _ => none
+
+def parseFast (s : String) : Option (Nat × Nat) :=
+  match s.splitOn ":" with
+  | [f, v] =>
+    match f.toNat?, v.toNat? with
+    | some f, some v => some (f, v)
+    | _, _ => none
+  | _ => none
+
+def commaList {α} (p : String → Option α) (s : String) : Option (List α) :=
+  if s == "-" then some [] else (s.splitOn ",").mapM p
+
+def parseDoc (s : String) : Option (ADoc × Bool) :=
+  match s.splitOn "|" with
+  | [id, al, ps, fs] =>
+    match id.toNat?, commaList parsePosting ps, commaList parseFast fs with
+    | some id, some ps, some fs =>
+      if al == "1" then some (⟨id, ps, fs⟩, true)
+      else if al == "0" then some (⟨id, ps, fs⟩, false) else none
+    | _, _, _ => none
+  | _ => none
+
+def parseSeg (s : String) : Option Seg := do
+  let ds ← (s.splitOn ";").mapM parseDoc
+  pure ⟨ds.map (·.1), ds.map (·.2)⟩
+
+def parseCorpus (s : String) : Option Corpus :=
+  if s == "-" then some [] else (s.splitOn "/").mapM parseSeg
+
+def parseOcc : String → Option Occur
+  | "m" => some .must | "s" => some .should | "n" => some .mustNot | _ => none
+
+/-- `n` pairs `(nat, hex)` -/
+def parsePairs : Nat → List String → Option (List (Nat × Bytes) × List String)
+  | 0, r => some ([], r)
+  | n + 1, a :: h :: r => do
+    let a ← a.toNat?
+    let h ← bytesNat h
+    let (ps, r) ← parsePairs n r
+    pure ((a, h) :: ps, r)
+  | _, _ => none
+
+def parseHexes : Nat → List String → Option (List Bytes × List String)
+  | 0, r => some ([], r)
+  | n + 1, h :: r => do
+    let h ← bytesNat h
+    let (ps, r) ← parseHexes n r
+    pure (h :: ps, r)
+  | _, _ => none
+
+def parseBnd (k h : String) : Option Bnd :=
+  match k with
+  | "i" => (bytesNat h).map .incl
+  | "e" => (bytesNat h).map .excl
+  | "u" => some .unb
+  | _ => none
+
+def parseBndN (k h : String) : Option BndN :=
+  match k with
+  | "i" => h.toNat?.map .incl
+  | "e" => h.toNat?.map .excl
+  | "u" => some .unb
+  | _ => none
+
+def parseB (s : String) : Option Bool := if s == "1" then some true else if s == "0" then some false else none
+
+mutual
+def parseQ : Nat → List String → Option (Query × List String)
+  | 0, _ => none
+  | fuel + 1, atoms =>
+    match atoms with
+    | "T" :: f :: h :: r => do pure (.leaf (.term (← f.toNat?) (← bytesNat h)), r)
+    | "P" :: f :: slop :: n :: r => do
+      let (ps, r) ← parsePairs (← n.toNat?) r
+      pure (.leaf (.phrase (← f.toNat?) ps (← slop.toNat?)), r)
+    | "PP" :: f :: n :: r => do
+      let (ps, r) ← parsePairs (← n.toNat?) r
+      match r with
+      | po :: h :: r => pure (.leaf (.phrasePrefix (← f.toNat?) ps (← po.toNat?) (← bytesNat h)), r)
+      | _ => none
+    | "RT" :: f :: lk :: lh :: uk :: uh :: r => do
+      pure (.leaf (.rangeTerm (← f.toNat?) (← parseBnd lk lh) (← parseBnd uk uh)), r)
+    | "RF" :: f :: lk :: lh :: uk :: uh :: r => do
+      pure (.leaf (.rangeFast (← f.toNat?) (← parseBndN lk lh) (← parseBndN uk uh)), r)
+    | "S" :: n :: r => do
+      let (ps, r) ← parsePairs (← n.toNat?) r
+      pure (.leaf (.termSet ps), r)
+    | "E" :: f :: r => do pure (.leaf (.exists_ (← f.toNat?)), r)
+    | "A" :: r => some (.leaf .all, r)
+    | "N" :: r => some (.leaf .empty, r)
+    | "F" :: f :: h :: d :: tr :: pre :: r => do
+      pure (.leaf (.fuzzy (← f.toNat?) (← bytesNat h) (← d.toNat?) (← parseB tr) (← parseB pre)), r)
+    | "X" :: f :: n :: r => do
+      let (hs, r) ← parseHexes (← n.toNat?) r
+      pure (.leaf (.regex (← f.toNat?) hs), r)
+    | "W" :: r => do
+      let (q, r) ← parseQ fuel r
+      pure (.boost q, r)
+    | "K" :: r => do
+      let (q, r) ← parseQ fuel r
+      pure (.constScore q, r)
+    | "D" :: n :: r => do
+      let (qs, r) ← parseQs fuel (← n.toNat?) r
+      pure (.disMax qs, r)
+    | "L" :: msm :: n :: r => do
+      let (cs, r) ← parseCs fuel (← n.toNat?) r
+      pure (.bool cs (← msm.toNat?), r)
+    | _ => none
+def parseQs : Nat → Nat → List String → Option (List Query × List String)
+  | 0, _, _ => none
+  | _ + 1, 0, r => some ([], r)
+  | fuel + 1, n + 1, r => do
+    let (q, r) ← parseQ fuel r
+    let (qs, r) ← parseQs fuel n r
+    pure (q :: qs, r)
+def parseCs : Nat → Nat → List String → Option (List (Occur × Query) × List String)
+  | 0, _, _ => none
+  | _ + 1, 0, r => some ([], r)
+  | fuel + 1, n + 1, o :: r => do
+    let o ← parseOcc o
+    let (q, r) ← parseQ fuel r
+    let (qs, r) ← parseCs fuel n r
+    pure ((o, q) :: qs, r)
+  | _ + 1, _ + 1, [] => none
+end
+
+def parseQuery (s : String) : Option Query :=
+  let atoms := s.splitOn ":"
+  match parseQ (atoms.length + 1) atoms with
+  | some (q, []) => some q
+  | _ => none
+
+def perQuery (qs : List String) (f : Query → String) : String :=
+  match qs.mapM parseQuery with
+  | some qs => ";".intercalate (qs.map f)
+  | none => "bad-op"
+
+def slashLists (s : String) : Option (List (List Nat)) :=
+  (s.splitOn "/").mapM dotList
+
 def handle : List String → String
+  | "answer" :: c :: qs =>
+    match parseCorpus c with
+    | some c => perQuery qs (fun q => showNatList (answer q c))
+    | none => "bad-op"
+  | "search" :: sc :: top :: c :: qs =>
+    match parseB sc, parseB top, parseCorpus c with
+    | some sc, some top, some c =>
+      perQuery qs (fun q => showNatList (if top then searchIdsTop leafTree sc c q else searchIds leafTree sc c q))
+    | _, _, _ => "bad-op"
+  | "ok" :: qs => perQuery qs (fun q => showBool (okQ q))
+  | "count" :: c :: qs =>
+    match parseCorpus c with
+    | some c => perQuery qs (fun q => toString ((c.map (fun s => weightCount leafTree s q)).sum))
+    | none => "bad-op"
+  | ["slop", mode, slop, ls] =>
+    match slop.toNat?, slashLists ls with
+    | some slop, some ls =>
+      if mode == "on" then showBool (PhraseSlop.phraseOn ls slop)
+      else if mode == "off" then showBool (PhraseSlop.phraseOff ls slop)
+      else if mode == "spec" then showBool (phraseSlop ls slop)
+      else "bad-op"
+    | _, _ => "bad-op"
+  | ["i64", v] =>
+    match v.toNat? with
+    | some v => toString (OrderEnc.i64_to_u64 (BitVec.ofNat 64 v)).toNat
+    | none => "bad-op"
+  | ["f64", v] =>
+    match v.toNat? with
+    | some v => toString (OrderEnc.f64_to_u64 (BitVec.ofNat 64 v)).toNat
+    | none => "bad-op"
+  | ["lev", tr, pre, c, q] =>
+    match parseB tr, parseB pre, bytesNat c, bytesNat q with
+    | some tr, some pre, some c, some q =>
+      let c := utf8Decode c
+      let q := utf8Decode q
+      toString (if pre then prefixEditDistance tr c q else editDistance tr c q)
+    | _, _, _, _ => "bad-op"
   | _ => "bad-op"
+
 end TantivyModel.Driver.C03
